@@ -7,6 +7,7 @@ history of what crossed each seam, and bounds the run deterministically.
 Nothing in here decides a property; oracles.py reads the History."""
 import contextlib
 import hashlib
+import inspect
 import io
 import logging
 import re
@@ -466,15 +467,22 @@ class Instrument(object):
         for mod in (ds, dc):
             orig = mod.eval_least_squares_with_regularisation
 
-            def ev(objfun, x, h=None, argsf=(), argsh=(), verbose=True, eval_num=0, pt_num=0, full_x_thresh=6,
-                   check_for_overflow=True, _orig=orig):
+            sig = inspect.signature(orig)
+
+            def ev(*a, _orig=orig, _sig=sig, **kw):
+                # signature-transparent: the call is forwarded exactly as made (a wrapper that re-maps arguments by name would
+                # silently repair a call site / signature mismatch in the code under test); binding is for observation only
                 ncalls = len(H.calls)
                 try:
-                    return _orig(objfun, x, h, argsf=argsf, argsh=argsh, verbose=verbose, eval_num=eval_num, pt_num=pt_num,
-                                 full_x_thresh=full_x_thresh, check_for_overflow=check_for_overflow)
+                    return _orig(*a, **kw)
                 finally:
                     if len(H.calls) == ncalls + 1:
-                        H.calls[-1].ev = (int(eval_num), int(pt_num))
+                        try:
+                            ba = _sig.bind(*a, **kw)
+                            ba.apply_defaults()
+                            H.calls[-1].ev = (int(ba.arguments.get('eval_num', 0)), int(ba.arguments.get('pt_num', 0)))
+                        except Exception:
+                            H.calls[-1].ev = None
                     elif len(H.calls) != ncalls:
                         H.log_anomalies.append(('multi-call', H.seq, len(H.calls) - ncalls))
             self._patch(mod, 'eval_least_squares_with_regularisation', ev)
